@@ -35,6 +35,12 @@ func hasStar(toks []gen.Tok) bool {
 
 func checkC17(c caseC17) (viol string, v ref.Verdict) {
 	v = ref.Recognize(c.Toks)
+	if v.Unspecified == "bind inside a block" {
+		// the property's grammar lists bind among the statements and allows
+		// inside blocks whatever is allowed at toplevel ("additionally bare
+		// expressions"): a complete bind statement in a block is a sentence
+		v.Unspecified = ""
+	}
 	if v.Unspecified != "" {
 		return "", v
 	}
@@ -91,6 +97,7 @@ func cfgC17(t *rapid.T) gen.ProgCfg {
 	cfg.PPar = 10
 	cfg.PBadLit = gen.Pick(t, "pbadlit", []int{0, 0, 2})
 	cfg.PBadBind = 8
+	cfg.BindInBlocks = gen.Chance(t, 40, "bindinblocks")
 	cfg.Names = []string{"a", "b", "c", "_d", "_", "e_"}
 	return cfg
 }
